@@ -103,6 +103,10 @@ pub fn run_cli(args: &[String]) -> CmdResult {
         Ok(Ok(v)) => v,
     };
     log::set_max_level(log_opts.filter);
+    // main() sets up its logger here. The harness's logger is already installed, so fern's
+    // apply() fails at its last step -- after the sinks have been built, which is the part that
+    // can touch the file system (C16)
+    let _ = catch_unwind(AssertUnwindSafe(|| bita::init_log(log_opts)));
     let r = run_async(async move {
         use bita::cli::CommandOpts;
         match cmd {
